@@ -421,7 +421,7 @@ pub fn targets(rng: &mut Sm, thorough: bool) -> Vec<Target> {
     prio3_targets(&mut ts, Sum::<Field64>::new(255).unwrap(), 3, 1, &200u64, rng);
     prio3_targets(&mut ts, Histogram::<Field128, ParallelSum<Field128, Mul>>::new(5, 2).unwrap(), 2, 2, &3usize, rng);
     prio3_targets(&mut ts, SumVec::<Field128, ParallelSum<Field128, Mul>>::new(7, 4, 3).unwrap(), 5, 1, &vec![1u128, 7, 0, 3], rng);
-    for bits in if thorough { vec![1usize, 2, 3, 5, 8, 17, 64] } else { vec![1usize, 2, 5, 9] } {
+    for bits in if thorough { vec![1usize, 2, 3, 4, 5, 8, 12, 17, 64] } else { vec![1usize, 2, 4, 5, 8, 9] } {
         poplar1_targets(&mut ts, bits, rng);
     }
     // degenerate instance: zero bits (no honest messages exist)
